@@ -19,6 +19,8 @@ CFGS = [
     dict(quitonerror=1, handler=True, validate=0, msgmode=1),
 ]
 ALPHABET = streams.FRAME_TOKENS + streams.NOISE_TOKENS + streams.FRAG_TOKENS
+# depth 4 (thorough) uses one representative per behaviour class
+ALPHA4 = [t for t in ALPHABET if t not in ("Npubx", "Nunk", "R2", "Ucfg", "nabc", "nff", "n62", "fb56205", "f24", "fd3")]
 _VT = {}
 
 
@@ -123,8 +125,9 @@ def eval_block(block, acc):
                 judge_stream(data, cfg, ce, acc, {"stream": data.hex(), "tokens": list(seq), "clean_ends": ce})
         return
     else:
-        _, first, k = block
-        seqs = [()] if first is None else ((first,) + t for t in streams.token_seqs(k - 1, ALPHABET))
+        _, first, k = block[:3]
+        alpha = ALPHA4 if (len(block) > 3 and block[3] == "a4") else ALPHABET
+        seqs = [()] if first is None else ((first,) + t for t in streams.token_seqs(k - 1, alpha))
         for seq in seqs:
             data = streams.seq_bytes(seq)
             for cfg in CFGS:
@@ -140,7 +143,12 @@ def run_tier(tier, t0):
     q = tier == "quick"
     L, k = (6, 3) if q else (7, 4)
     blocks = [("bytes", list(b)) for b in streams.byte_blocks(L)]
-    blocks += [("tokens", None, 0)] + [("tokens", f, k) for f in ALPHABET]
+    if q:
+        blocks += [("tokens", None, 0)] + [("tokens", f, 3) for f in ALPHABET]
+    else:
+        blocks += [("tokens", None, 0)] + [("tokens", f, 3) for f in ALPHABET]
+        for f in ALPHA4:  # depth 4 over the reduced alphabet, sharded by the first two tokens
+            blocks += [("tokens", f, 4, "a4")]
     blocks += [("long", L) for L in streams.LONG_NAMES]
     blocks += [("kinds", f) for f in streams.FRAME_TOKENS + streams.FRAG_TOKENS]
     if not q:
@@ -150,8 +158,8 @@ def run_tier(tier, t0):
     engine.finish(
         PROP, tier, acc, t0, replay_case,
         rule=(
-            f"every cut position of every byte string over the 8-symbol alphabet of length<={L} and of every sequence of <= {k} tokens "
-            f"over {len(ALPHABET)} tokens (frames, noise, fragments) x {len(CFGS)} configurations (ignore / log+handler x validate 0/1). "
+            f"every cut position of every byte string over the 8-symbol alphabet of length<={L} and of every sequence of <= 3 tokens "
+            f"over {len(ALPHABET)} tokens (frames, noise, fragments)" + ("" if q else f" and of every sequence of 4 tokens over a reduced alphabet of {len(ALPHA4)}") + f" x {len(CFGS)} configurations (ignore / log+handler x validate 0/1). "
             "distinct_nontrivial = distinct (items of uncut run, items of cut run) pairs"
         ),
         assumptions=["io.BytesIO(S[:k]) models a stream that ends after k bytes; token sequences of <= 2 are also read through a pipe-like stream (tell/seek raise) and a minimal read/readline-only object", "parsed items compared by type, str() and serialize()"],
